@@ -3,7 +3,7 @@
 From Coq Require Import PeanoNat Arith Lia.
 From AV Require Import Base.Bytes Base.Outcome Hash.HashModel Tree.Heap Tree.Ops Tree.Script Tree.Inv
   Tree.InvProofsBase Tree.InvProofsCore Tree.InvProofsTree Tree.InvProofsPrim Tree.InvProofsFrame Tree.InvProofsChars
-  Tree.InvProofsChars5 Tree.InvEBase Tree.Load Tree.InvLoad Tree.InvProofsLoadBase.
+  Tree.InvProofsChars5 Tree.InvProofsCreate Tree.InvEBase Tree.Load Tree.InvLoad Tree.InvProofsLoadBase.
 From AV Require Xml.Parser.
 Open Scope string_scope.
 Open Scope list_scope.
@@ -149,6 +149,123 @@ Proof.
       destruct (TY2 _ _ _ _ Ek Hj) as (n & c & sub & A & B & Cc & Dd & Ee). cbn [w_next walloc] in Ee.
       exists n, sub. split; [rewrite nodes_wset_neq by (unfold i; lia); exact B|].
       split; [cbn [et_at et_content]; rewrite A; exact Cc|]. split; [exact Dd|unfold i in *; lia].
+Qed.
+
+(* ------------------------------------------------------------------ Part 2: the merge keeps NoOrphanP and CharsLeaf *)
+Definition J (w : world) : Prop := NoOrphanP w /\ CharsLeaf T w.
+Definition JOK {A} (m : W A) : Prop := forall w a w', J w -> m w = Val (OK a, w') -> J w'.
+
+Lemma JOK_ro {A} (m : W A) : ro m -> JOK m.
+Proof. intros H w a w' I E. apply H in E. subst. exact I. Qed.
+Lemma JOK_bind {A B} (m : W A) (k : A -> W B) : JOK m -> (forall a, JOK (k a)) -> JOK (wbind m k).
+Proof.
+  intros Hm Hk w b w' I H. apply wbind_inv in H as [(a & w1 & H1 & H2) | (e & H1 & [=])].
+  eapply Hk; [|exact H2]. eapply Hm; eauto.
+Qed.
+Lemma J_wset_keep w i n n' : J w -> w_nodes w i = Some n ->
+  n_parent n' = n_parent n -> n_type n' = n_type n -> kids n' = kids n -> J (wset w i n').
+Proof.
+  intros (O & CL) Hn Hp Ht Hk. split.
+  - eapply NoOrphanP_same_tree; [eapply st_wset; eauto|exact O].
+  - eapply CharsLeaf_wset; eauto. split; auto. intros _ H0. rewrite Hk. exact H0.
+Qed.
+Lemma JOK_modify_keep i f :
+  (forall n, n_parent (f n) = n_parent n /\ n_type (f n) = n_type n /\ kids (f n) = kids n) -> JOK (modify_node i f).
+Proof.
+  intros Hf w a w' I H. apply modify_node_wset in H as (n & Hn & _ & ->). destruct (Hf n) as (A1 & A2 & A3).
+  eapply J_wset_keep; eauto.
+Qed.
+
+Lemma calc_range_not_chars n name v w r w' :
+  calc_element_insert_range T n name v w = Val (OK r, w') -> content_mode T (n_type n) <> Val MCharacters.
+Proof.
+  unfold calc_element_insert_range. intros H Hc.
+  apply wbind_inv in H as [(mode & w1 & H1 & H2) | (e & _ & [=])].
+  apply wl_inv in H1 as (m0 & Em & [= ->] & ->). rewrite Hc in Em. injection Em as <-.
+  cbn in H2. apply wfail_inv in H2 as ([=] & _).
+Qed.
+
+Lemma JOK_restrict files : forall l, JOK (restrict_a_only l files).
+Proof.
+  induction l as [|e l IH]; cbn [restrict_a_only]; [apply JOK_ro; ro_tac|].
+  apply JOK_bind; [|intros _; exact IH]. apply JOK_modify_keep. intros n. destruct (is_empty (n_files n)); repeat split.
+Qed.
+
+Lemma JOK_import pa nf minv : forall l idx, JOK (import_new_items T pa l idx nf minv).
+Proof.
+  induction l as [|[x ipos] l IH]; intros idx w a w' I H; cbn [import_new_items] in H.
+  - apply wret_inv in H as (_ & ->). exact I.
+  - destruct I as (O & CL).
+    apply wbind_inv in H as [(u1 & w1 & E1 & H) | (e & _ & [=])].
+    apply modify_node_wset in E1 as (nx & Hnx & _ & ->).
+    set (w1 := wset w x (set_parent nx (PElem pa))) in *.
+    assert (O1 : OrphE w1 (fun y => False \/ y = x)).
+    { eapply (orphe_reparent w w1 x (n_parent nx) (kids nx) pa); [apply upd1_wset|apply skel_some; exact Hnx|
+        unfold w1; rewrite skel_wset_eq; reflexivity|apply NoOrphanP_OrphSubE; exact O]. }
+    assert (CL1 : CharsLeaf T w1).
+    { eapply CharsLeaf_wset; eauto. split; auto. }
+    apply wbind_inv in H as [(u2 & w2 & E2 & H) | (e & _ & [=])].
+    apply modify_node_wset in E2 as (nx2 & Hnx2 & _ & ->).
+    unfold w1 in Hnx2. rewrite nodes_wset_eq in Hnx2. injection Hnx2 as <-.
+    set (nx3 := set_files _ _) in *. set (w2 := wset w1 x nx3) in *.
+    assert (S12 : same_tree w1 w2) by (eapply st_wset; [apply nodes_wset_eq|reflexivity|reflexivity]).
+    assert (O2 : OrphE w2 (fun y => False \/ y = x)) by (eapply OrphE_same_tree; eauto).
+    assert (CL2 : CharsLeaf T w2).
+    { eapply CharsLeaf_wset; [exact CL1|apply nodes_wset_eq|]. split; auto. }
+    apply wbind_inv in H as [(ne & w3 & E3 & H) | (e & _ & [=])]. apply get_node_inv in E3 as (ne' & Hne & [= ->] & ->).
+    apply wbind_inv in H as [(pan & w4 & E4 & H) | (e & _ & [=])]. apply get_node_inv in E4 as (npa & Hnpa & [= ->] & ->).
+    apply wbind_inv in H as [(range & w5 & E5 & H) | (e & _ & [=])].
+    apply wcatch_inv in E5 as (r0 & E5 & [= ->]).
+    pose proof (ro_calc_range T _ _ _ _ _ _ E5) as ->.
+    destruct r0 as [[fp lp]|e]; [|apply wfail_inv in H as ([=] & _)].
+    pose proof (calc_range_not_chars _ _ _ _ _ _ E5) as Hnc.
+    apply wbind_inv in H as [(u3 & w6 & E6 & H) | (e & _ & [=])].
+    apply content_insert_inv in E6 as (npa' & Hnpa' & _ & ->). rewrite Hnpa in Hnpa'. injection Hnpa' as <-.
+    set (npa2 := set_content npa _) in *. set (w3 := wset w2 pa npa2) in *.
+    assert (Hpx : par w2 x pa) by (exists nx3; split; [apply nodes_wset_eq|reflexivity]).
+    assert (O3 : NoOrphanP w3).
+    { apply NoOrphanP_OrphSubE.
+      eapply OrphE_weaken; [|eapply (orphe_insert w2 w3 pa (n_parent npa) (kids npa) _ x);
+        [apply upd1_wset|apply skel_some; exact Hnpa|unfold w3; rewrite skel_wset_eq; reflexivity| |exact Hpx|exact O2]].
+      - cbn beta. intros y ([[]| ->] & Hne'). congruence.
+      - intros y. unfold npa2, kids. cbn [n_content set_content]. apply elems_insert_in. }
+    assert (CL3 : CharsLeaf T w3).
+    { eapply CharsLeaf_wset; [exact CL2|exact Hnpa|]. split; [reflexivity|]. intros Hc. contradiction. }
+    eapply IH; [split; [exact O3|exact CL3]|exact H].
+Qed.
+
+Lemma JOK_walk {A} (f : res (out A)) :
+  JOK (fun w0 => match f with Val o => Val (o, w0) | Pan s => Pan s | Fuel => Fuel end).
+Proof. intros w a w' I H. destruct f as [o| |]; try discriminate H. injection H as _ <-. exact I. Qed.
+
+Lemma JOK_merge LATEST ndr : forall fuel pa files pb nf, JOK (merge_element T LATEST ndr fuel pa files pb nf).
+Proof.
+  induction fuel as [|fl IH]; intros pa files pb nf; [intros w a w' _ H; discriminate H|].
+  cbn [merge_element].
+  apply JOK_bind; [apply JOK_ro; ro_tac|intros w0].
+  apply JOK_bind; [apply JOK_ro; ro_tac|intros na].
+  apply JOK_bind; [apply JOK_ro; ro_tac|intros nb].
+  apply JOK_bind; [apply JOK_ro; ro_tac|intros la].
+  apply JOK_bind; [apply JOK_ro; ro_tac|intros lb].
+  apply JOK_bind; [apply JOK_ro; ro_tac|intros sp].
+  apply JOK_bind; [apply JOK_walk|intros wk].
+  apply JOK_bind; [apply JOK_restrict|intros _].
+  apply JOK_bind; [apply JOK_import|intros _].
+  induction (wk_merge wk) as [|[ea eb] l IHl]; [apply JOK_ro; ro_tac|].
+  apply JOK_bind; [apply JOK_ro; ro_tac|intros nea].
+  apply JOK_bind; [apply IH|intros _].
+  apply JOK_bind; [|intros _; exact IHl].
+  apply JOK_modify_keep. intros n. destruct (negb (is_empty (n_files n))); repeat split.
+Qed.
+
+Lemma JOK_merge_file_data LATEST ndr m re fid : JOK (merge_file_data T LATEST ndr m re fid).
+Proof.
+  unfold merge_file_data.
+  apply JOK_bind; [apply JOK_ro; ro_tac|intros x].
+  apply JOK_bind; [apply JOK_ro; ro_tac|intros w0].
+  apply JOK_bind; [apply JOK_merge|intros _].
+  apply JOK_bind; [apply JOK_ro; ro_tac|intros x2].
+  apply JOK_modify_keep. intros n. repeat split.
 Qed.
 
 End Shape.
